@@ -56,21 +56,14 @@ func (f *Logbitp) Call(s *slip.Scope, args slip.List, depth int) slip.Object {
 			if (uint64(ti)>>int(index))&0x01 == 1 {
 				return slip.True
 			}
+		} else if ti < 0 {
+			// The sign bit of a negative integer extends for ever.
+			return slip.True
 		}
 	case *slip.Bignum:
-		ba := (*big.Int)(ti).Bytes()
-		reverseBytes(ba)
-		bo := int(index) / 8
-		if bo < len(ba) {
-			if 0 < (*big.Int)(ti).Sign() {
-				if (ba[bo]>>(index%8))&0x01 == 1 {
-					return slip.True
-				}
-			} else {
-				if (ba[bo]>>(index%8))&0x01 != 1 {
-					return slip.True
-				}
-			}
+		// big.Int.Bit is the bit of the two's complement representation.
+		if (*big.Int)(ti).Bit(int(index)) == 1 {
+			return slip.True
 		}
 	default:
 		slip.TypePanic(s, depth, "integer", ti, "integer")
